@@ -157,6 +157,11 @@ func workerMain(args []string) {
 				api := core.CurrentAPIName()
 				b, _ := json.Marshal(hangRec{Run: curRun, RunSeed: curSeed, Config: curCfg, API: api})
 				_ = os.WriteFile(*out+".hang", b, 0o644)
+				// the run goroutine is stuck inside the library and no longer touches res:
+				// keep what this worker had completed so far
+				if pb, err := json.Marshal(res); err == nil {
+					_ = os.WriteFile(*out, pb, 0o644)
+				}
 				os.Exit(3)
 			}
 		}
@@ -423,10 +428,18 @@ func spawnWorkers(self, prop, tier string, seed uint64, n int64, w int, deadline
 			if ee, ok := err.(*exec.ExitError); ok && ee.ExitCode() == 3 {
 				if b, e2 := os.ReadFile(p.out + ".hang"); e2 == nil {
 					var h hangRec
-					if json.Unmarshal(b, &h) == nil && hang == nil {
+					if json.Unmarshal(b, &h) == nil && (hang == nil || h.Run < hang.Run) {
 						hang = &h
 					}
 				}
+				if pb, e3 := os.ReadFile(p.out); e3 == nil {
+					var o WorkerOut
+					if json.Unmarshal(pb, &o) == nil {
+						outs = append(outs, &o)
+					}
+				}
+				_ = os.Remove(p.out)
+				_ = os.Remove(p.out + ".hang")
 				continue
 			}
 			if firstErr == nil {
@@ -657,7 +670,7 @@ func checkMain(args []string) int {
 			}
 		}
 	}
-	if total.Runs == 0 {
+	if total.Runs == 0 && exit == 0 {
 		fmt.Fprintln(os.Stderr, "verifsim: no run was executed")
 		return 2
 	}
